@@ -129,9 +129,10 @@ static int any_unsynced_write(void) { unsigned l; for (l = 0; l < LEVEL; ++l) if
 void state_write(struct snapraid_state* s) { (void)s; VF_ASSERT(!any_unsynced_write(), "C06/C07: the content file is never written while a parity write since the last parity_sync is outstanding"); ++state_written; }
 void qsort(void* base, size_t n, size_t size, int (*cmp)(const void*, const void*))
 {
-	/* insertion sort through the real comparison callback; elements are failed_struct (16 bytes) */
-	unsigned char* a = base; size_t i, j, k; VF_ASSERT(n <= ND && size <= 32, "harness: qsort stub");
-	for (i = 1; i < n; ++i) for (j = i; j > 0 && cmp(a + (j - 1) * size, a + j * size) > 0; --j) for (k = 0; k < size; ++k) { unsigned char t = a[j * size + k]; a[j * size + k] = a[(j - 1) * size + k]; a[(j - 1) * size + k] = t; }
+	/* insertion sort through the real comparison callback, on typed elements: swapping the bytes of a struct that holds a pointer
+	 * turns the pointer into a byte-wise if-then-else that CBMC cannot dereference in reasonable time */
+	struct failed_compat* a = base; size_t i, j; VF_ASSERT(n <= ND && size == sizeof(struct failed_compat), "harness: qsort stub sorts failed[] only");
+	for (i = 1; i < n; ++i) for (j = i; j > 0 && cmp(&a[j - 1], &a[j]) > 0; --j) { struct failed_compat t = a[j]; a[j] = a[j - 1]; a[j - 1] = t; }
 }
 
 /* ---------------- handle / parity stubs ---------------- */
